@@ -2560,6 +2560,15 @@ refill(struct evrrul_s *restrict strm)
 		}
 		strm->ncch = j;
 	}
+	/* UNTIL is in UTC and the fillers tested it against candidates that
+	 * weren't yet, one of them might have moved past it */
+	for (size_t i = 0U; i < strm->ncch && strm->cal == SCALE_GREGORIAN; i++) {
+		if (UNLIKELY(echs_instant_lt_p(rr->until, strm->cch[i]))) {
+			strm->ncch = i;
+			strm->e.from = echs_nul_instant();
+			break;
+		}
+	}
 	return strm->ncch;
 }
 
